@@ -31,7 +31,13 @@ def s1_membership(ctx):
     if ctx.require(ok1 if ok1 else None, 'C19.S1', 'DynamicUniverse.get_assets is one list comprehension', fn.site(), [fmt(p.value)[:120] if p.value else p.outcome for p in ps]):
         comp = ps[0].value
         tg, it, ifs = comp[3][0]
-        ctx.require(fmt(it) == 'self.asset_dates.items()' and len(tg) == 2 and comp[2] == tg[0], 'C19.S1', 'every configured asset is considered and the asset itself is returned',
+        iter_ok = fmt(it) == 'self.asset_dates.items()' and len(tg) == 2 and comp[2] == tg[0]
+        narrowed = any(s_[0] == 'slice' or (s_[0] == 'call' and s_[1] in (('ext', 'itertools.islice'),)) for s_ in T.subterms(it)) or \
+            (fmt(it) == 'self.asset_dates.items()' and len(tg) == 2 and comp[2] != tg[0])
+        if not iter_ok and not narrowed:
+            ctx.undecided('C19.S1', 'every configured asset is considered and the asset itself is returned', fn.site(), 'unrecognised construction: %s' % fmt(comp)[:160])
+            return
+        ctx.require(iter_ok, 'C19.S1', 'every configured asset is considered and the asset itself is returned',
                     fn.site(), fmt(comp)[:160], key='C19.S1|iter')
         date = fmt(tg[1]) if len(tg) == 2 else '?'
         # numeric fields the filter may read take the value the constructor gives them by default
